@@ -98,6 +98,11 @@ var Rules = []Entry{
 	{"mate-with-right-wq", "6k1/8/8/8/8/8/3PPPPP/R3K2r w Q - 0 1"},
 	{"mate-with-right-bk", "R3k2r/3ppppp/8/8/8/8/8/6K1 b k - 0 1"},
 	{"mate-with-right-bq", "r3k2R/3ppppp/8/8/8/8/8/6K1 b q - 0 1"},
+	// an en passant target nobody can capture on (what a GUI writes after any double step): it is part of the
+	// position all the same
+	{"ep-nobody-can-capture-w", "rnbqkbnr/pppppppp/8/8/4P3/8/PPPP1PPP/RNBQKBNR b KQkq e3 0 1"},
+	{"ep-nobody-can-capture-b", "rnbqkbnr/pppp1ppp/8/4p3/4P3/8/PPPP1PPP/RNBQKBNR w KQkq e6 0 2"},
+	{"ep-nobody-can-capture-endgame", "4k3/8/8/8/4P3/8/8/4K3 b - e3 0 1"},
 	// in check with both rights, not mate: the king steps aside
 	{"check-with-rights", "4k3/8/8/8/8/8/8/r3K2R w K - 0 1"},
 }
